@@ -54,7 +54,7 @@ func vfC20Gen(rt *rapid.T) vfC20Case {
 	default:
 		n = rapid.IntRange(201, 500).Draw(rt, "n")
 	}
-	shape := rapid.SampledFrom([]string{"free", "few_distinct", "all_equal", "collinear", "grid"}).Draw(rt, "shape")
+	shape := rapid.SampledFrom([]string{"free", "few_distinct", "all_equal", "collinear", "grid", "antipodal"}).Draw(rt, "shape")
 	g := vfNewVecGen(rt, dim)
 	var distinct [][]float32
 	nd := rapid.IntRange(1, 4).Draw(rt, "ndistinct")
@@ -77,6 +77,17 @@ func vfC20Gen(rt *rapid.T) vfC20Case {
 			for j := range v {
 				v[j] = dir[j] * t
 			}
+		case "antipodal":
+			// pairs v, -v (their mean is the zero vector) and, off the cosine metric, the zero vector itself
+			v = vfCloneF32(distinct[i%len(distinct)])
+			if i%2 == 1 {
+				for j := range v {
+					v[j] = -v[j]
+				}
+			}
+			if i%5 == 4 && c.Metric != string(Cosine) {
+				v = make([]float32, dim)
+			}
 		case "grid":
 			v = make([]float32, dim)
 			for j := range v {
@@ -93,6 +104,13 @@ func vfC20Gen(rt *rapid.T) vfC20Case {
 		c.K = rapid.IntRange(1, 8).Draw(rt, "k_small")
 	}
 	c.MaxIter = rapid.IntRange(-1, 25).Draw(rt, "max_iter")
+	// "k and maxIter in Z": far outside the sensible range as well (they are not sizes to allocate)
+	switch rapid.IntRange(0, 29).Draw(rt, "extreme_parameters") {
+	case 0:
+		c.K = rapid.SampledFrom([]int{math.MaxInt32, math.MaxInt64, math.MinInt64, 1 << 40, -(1 << 40)}).Draw(rt, "k_extreme")
+	case 1:
+		c.MaxIter = rapid.SampledFrom([]int{math.MaxInt32, math.MaxInt64, math.MinInt64, 1 << 40}).Draw(rt, "max_iter_extreme")
+	}
 
 	c.IndexKind = rapid.SampledFrom([]string{"ivf", "pq", "ivfpq"}).Draw(rt, "index_kind")
 	c.NList = rapid.IntRange(1, 6).Draw(rt, "nlist")
